@@ -9,6 +9,7 @@ from ..core import (AnalysisError, call_name, const, dotted, is_const, kwarg, lo
 from ..facts import default_of, guards_of, returns_of, enclosing_loops
 from ..rules import canon as C
 from ..rules import matcher as M
+from ..pattern import pmatch, pfind
 from ..rules.label import analyse as label_analyse
 from ..rules.memo import id_calls, local_memo_sites
 from ..rules.unionfind import check_merge
@@ -51,6 +52,7 @@ def run(rep):
 
 def refine_cache(rep):
     fi = rep.f(CN, K + "_refine")
+    part_p = fi.params[2]
     ss = local_memo_sites(rep.repo, fi)
     rep.need("R1", len(ss), 1, "memo store in _refine")
     for s in ss:
@@ -69,51 +71,44 @@ def refine_cache(rep):
         rep.ob("O18.1", "R1", f"{CN}:CRNCanonicalizer", True, "no id() in the canonicaliser", "no decision of the canonicaliser depends on object identities")
     # refinement is order-invariant: cells split by sorted signature
     pm = parent_map(fi.node)
-    srt = [l for l in walk_local(fi.node) if isinstance(l, ast.For) and isinstance(l.iter, ast.Call) and call_name(l.iter) == "sorted"
-           and "sigs" in norm(l.iter)]
-    rep.ob("O18.2", "R12", fi, len(srt) == 1 and _total_key(srt[0].iter), srt[0].iter if srt else "for s in sorted(sigs...)",
+    ok, construct, gnames = C.split_sorted(fi)
+    rep.ob("O18.2", "R12", fi, ok, construct,
            "a split cell is replaced by its sub-cells in the order of their FULL signatures (a partial key leaves ties in node-insertion order)")
-    for lp in [l for l in walk_local(fi.node) if isinstance(l, ast.For) and norm(l.iter) == "part"]:
+    for lp in [l for l in walk_local(fi.node) if isinstance(l, ast.For) and norm(l.iter) == part_p]:
         skips = [n for n in walk_local(lp) if isinstance(n, (ast.Break,))]
         rep.ob("O18.2", "R12", fi, not skips, lp.iter, "every cell is refined in every round", node=lp)
     wl = [l for l in walk_local(fi.node) if isinstance(l, ast.While)]
-    rep.ob("O18.2", "R12", fi, len(wl) == 1 and norm(wl[0].test) == "changed", wl[0].test if wl else "while", "refinement runs until no cell splits")
+    okw = False
+    if len(wl) == 1 and isinstance(wl[0].test, ast.Name):
+        flag = wl[0].test.id
+        sets = [n for n in walk_local(wl[0]) if isinstance(n, ast.Assign) and norm(n.targets[0]) == flag]
+        trues = [n for n in sets if is_const(n.value, True)]
+        # the flag is raised exactly where a cell splits (more than one signature group)
+        okw = bool(trues) and all(isinstance(n.value, ast.Constant) for n in sets) and all(
+            any(s_ and pmatch("len($g) > 1", t) is not None and pmatch("len($g) > 1", t)["g"] in gnames for t, s_ in guards_of(pm, n, wl[0])) for n in trues) \
+            and not [n for n in walk_local(wl[0]) if isinstance(n, ast.Break)]
+    rep.ob("O18.2", "R12", fi, okw, wl[0].test if wl else "while", "refinement runs until no cell splits")
 
 
 def labels(rep):
     sig = rep.f(CN, K + "_sig")
-    leaks, unordered, facts = label_analyse(sig, {"v"}, {"part"})
+    leaks, unordered, facts = label_analyse(sig, {sig.params[2]}, {sig.params[3]})
     if not leaks and not unordered:
         rep.ob("O18.2", "R12", sig, True, "_sig(G, v, part)", "the refinement signature uses node ids only as lookup keys and sorts every per-neighbour list", facts, node=sig.node)
     for node, msg in leaks + unordered:
         rep.ob("O18.2", "R12", sig, False, node, msg, facts, node=node)
     lab = rep.f(CN, K + "_label")
-    leaks, unordered, facts = label_analyse(lab, set(), {"perm"})
+    leaks, unordered, facts = label_analyse(lab, set(), {lab.params[2]})
     if not leaks and not unordered:
         rep.ob("O18.2", "R12", lab, True, "_label(G, perm)", "the canonical label depends on attributes at positions, not on node ids", facts, node=lab.node)
     for node, msg in leaks + unordered:
         rep.ob("O18.2", "R12", lab, False, node, msg, facts, node=node)
     # label covers node keys and arc keys in both directions (i != j over ordered pairs)
-    ldefs = local_defs(lab.node)
-    ns = origin(ldefs, ast.Name(id="node_seg", ctx=ast.Load()))
-    okn = "self.node_attr_keys" in norm(ns) and "G.nodes[v].get(a" in norm(ns) and "for v in perm" in norm(ns)
-    rep.ob("O18.2", "R12", lab, okn, ns, "the label lists the selected node attributes of every position")
-    ones = [c for c in walk_local(lab.node) if isinstance(c, ast.Call) and norm(c.func) == "edge_bits.append" and "'1:'" in norm(c)]
-    okf = False
-    if ones:
-        names = {x.id for x in ast.walk(ones[0]) if isinstance(x, ast.Name)}
-        fr = [d for nm in names for d in ldefs.get(nm, []) if d.kind == "assign" and "self.edge_attr_keys" in norm(d.value) and "attrs.get(a" in norm(d.value)]
-        at = origin(ldefs, ast.Name(id="attrs", ctx=ast.Load()))
-        okf = bool(fr) and norm(at) == "G[vi][vj]"
-    rep.ob("O18.2", "R12", lab, okf, ones[0] if ones else "edge_bits.append('1:' ...)", "an arc bit carries the selected attributes of exactly that arc")
-    inner = [l for l in walk_local(lab.node) if isinstance(l, ast.For) and norm(l.iter) == "range(n)"]
-    conts = [n for l in inner for n in l.body if isinstance(n, ast.If) and any(isinstance(x, ast.Continue) for x in n.body)]
-    okp = len(inner) == 2 and len(conts) == 1 and norm(conts[0].test).replace(" ", "") == "i==j"
-    rep.ob("O18.2", "R12", lab, okp, [norm(c.test) for c in conts], "every ordered pair of positions contributes an arc bit (directed view)")
+    for tag, ok, construct, what, node in C.label_builder_shape(lab, "node_attr_keys", "edge_attr_keys", directed=True):
+        rep.ob("O18.2", "R12", lab, ok, construct, what, node=node)
     ip = rep.f(CN, K + "_init_part")
-    rets = returns_of(ip.node)
-    ok = bool(rets) and "sorted(buckets.items()" in norm(rets[-1].value)
-    rep.ob("O18.2", "R12", ip, ok, rets[-1] if rets else "return", "initial cells are ordered by their attribute key (not by insertion order)")
+    ok, construct = C.initial_partition_sorted(ip, "node_attr_keys")
+    rep.ob("O18.2", "R12", ip, ok, construct, "initial cells are ordered by their attribute key (not by insertion order)")
     sig_keys = [n for n in walk_local(sig.node) if isinstance(n, ast.Attribute) and n.attr in ("node_attr_keys", "edge_attr_keys")]
     rep.ob("O18.2", "R12", sig, {n.attr for n in sig_keys} == {"node_attr_keys", "edge_attr_keys"}, sorted({n.attr for n in sig_keys}),
            "the refinement looks at the same node and arc keys as the label")
@@ -124,7 +119,9 @@ def search(rep):
     for name, ok, construct, what, node in C.ir_search_shape(fi):
         rep.ob("O18.2", "R16", fi, ok, construct, what, node=node)
     defs = local_defs(fi.node)
-    perm = [d for d in defs.get("perm", []) if d.kind == "assign"]
+    labs = pfind(f"$l = self._label({fi.params[1]}, $p)", fi.node)
+    rep.need("R16", len(labs), 1, "lab = self._label(G, perm) at the leaf")
+    perm = [d for d in defs.get(labs[0][1]["p"], []) if d.kind == "assign"]
     rep.need("R16", len(perm), 1, "perm = prefix + flatten(part)")
     cls, why = C.classify_order(defs, perm[0].value)
     rep.ob("O18.3", "R14", fi, cls in ("BIJECTIVE", "DUPLICATE"), perm[0].stmt,
@@ -133,23 +130,30 @@ def search(rep):
 
 def canon_graph(rep):
     fi = rep.f(CN, K + "_canon")
+    se = rep.f(CN, K + "_search")
     defs = local_defs(fi.node)
     ms = C.mapping_sites(fi)
     rep.need("R14", len(ms), 1, "mapping comprehension in _canon")
     dc, src = ms[0]
     off = C.offset_of(dc)
     rep.ob("O18.3", "R14", fi, off is not None, dc, "node numbers are position + constant (distinct positions give distinct numbers)", {"offset": off})
-    o = origin(defs, src)
-    ok = isinstance(o, ast.Call) and norm(o).replace(" ", "") == "best.get('perm')"
-    rep.ob("O18.3", "R14", fi, ok, o, "the numbering is taken from the minimal-label leaf")
-    rl = [c for c in walk_local(fi.node) if isinstance(c, ast.Call) and call_name(c) == "relabel_nodes"]
-    ok = bool(rl) and norm(rl[0].args[0]) == "G" and norm(rl[0].args[1]) == "mapping" and is_const(kwarg(rl[0], "copy") or ast.Constant(True), True)
-    rep.ob("O18.3", "R14", fi, ok, rl[0] if rl else "relabel_nodes", "the canonical graph is the view relabelled (a copy with all node and arc attributes)")
-    g = origin(defs, ast.Name(id="G", ctx=ast.Load()))
-    rep.ob("O18.3", "R14", fi, norm(g) == "self.G", g, "the graph canonicalised is the network's own view")
     sr = [c for c in walk_local(fi.node) if isinstance(c, ast.Call) and call_name(c) == "_search"]
-    ok = bool(sr) and norm(sr[0].args[1]) == "part" and norm(origin(defs, sr[0].args[1])) == "self._init_part(G)" and isinstance(sr[0].args[2], ast.List) and not sr[0].args[2].elts
-    rep.ob("O18.2", "R16", fi, ok, sr[0] if sr else "_search", "the search starts from the attribute partition with an empty prefix")
+    rep.need("R16", len(sr), 1, "_search call in _canon")
+    sc = sr[0]
+    # positional arguments follow _search(self, G, part, prefix, best, perms)
+    a_G, a_part, a_prefix, a_best = (sc.args + [None] * 4)[:4]
+    o = origin(defs, src)
+    ok = a_best is not None and (pmatch(f"{norm(a_best)}.get('perm')", o) is not None or pmatch(f"{norm(a_best)}['perm']", o) is not None)
+    rep.ob("O18.3", "R14", fi, ok, o, "the numbering is taken from the minimal-label leaf")
+    map_names = [nm for nm, ds in defs.items() for d_ in ds if d_.kind == "assign" and d_.value is dc]
+    rl = [c for c in walk_local(fi.node) if isinstance(c, ast.Call) and call_name(c) == "relabel_nodes"]
+    ok = bool(rl) and bool(map_names) and a_G is not None and len(rl[0].args) >= 2 and norm(rl[0].args[0]) == norm(a_G) and norm(rl[0].args[1]) == map_names[0] \
+        and is_const(kwarg(rl[0], "copy") or ast.Constant(True), True)
+    rep.ob("O18.3", "R14", fi, ok, rl[0] if rl else "relabel_nodes", "the canonical graph is the view relabelled (a copy with all node and arc attributes)")
+    g = origin(defs, a_G) if a_G is not None else None
+    rep.ob("O18.3", "R14", fi, g is not None and norm(g) == "self.G", g if g is not None else "G", "the graph canonicalised is the network's own view")
+    ok = a_part is not None and pmatch(f"self._init_part({norm(a_G)})", origin(defs, a_part)) is not None and isinstance(a_prefix, ast.List) and not a_prefix.elts
+    rep.ob("O18.2", "R16", fi, ok, sc, "the search starts from the attribute partition with an empty prefix")
 
 
 def siblings(rep):
@@ -196,7 +200,7 @@ def siblings(rep):
     rep.need("R13", len(clo), 1, "match closure in _node_match")
     try:
         pf = M.normalise_predicate(clo[0])
-        rep.ob("O18.4", "R13", nm, pf.exact and pf.eq_over == {"keys"} and not pf.ge and not pf.other, f"match({', '.join(pf.params)})",
+        rep.ob("O18.4", "R13", nm, pf.exact and pf.eq_over == {nm.params[0]} and not pf.ge and not pf.other, f"match({', '.join(pf.params)})",
                "the matcher closure is equality on every configured key", {"eq_over": sorted(pf.eq_over), "exact": pf.exact})
     except Undecided as exc:
         rep.ob("O18.4", "R13", nm, None, "match", str(exc))
@@ -218,58 +222,135 @@ def siblings(rep):
         rep.ob("O18.4", "R13", bk, ok, c, "the stoichiometry switch reaches the view writer", node=c)
 
 
+def _ret_elts(fi):
+    rets = returns_of(fi.node)
+    if not rets or not isinstance(rets[-1].value, ast.Tuple):
+        raise AnalysisError(f"{fi.qualname} no longer returns a tuple")
+    return rets[-1], rets[-1].value.elts
+
+
+def _slot_of(defs, name, callee):
+    """index of the callee's result tuple that the local `name` is unpacked from (None if it is not)"""
+    for d in defs.get(name, []):
+        if d.index is not None and len(d.index) == 1 and isinstance(d.value, ast.Call) and call_name(d.value) == callee:
+            return d.index[0]
+    return None
+
+
 def counts(rep):
     cs = rep.f(CN, K + "summary")
+    cn = rep.f(CN, K + "_canon")
     d = [n for n in walk_local(cs.node) if isinstance(n, ast.Dict)]
     rep.need("SHAPE", len(d), 1, "summary dict")
-    kv = {k.value: norm(v) for k, v in zip(d[0].keys, d[0].values) if isinstance(k, ast.Constant)}
-    rep.ob("O18.5", "SHAPE", cs, kv.get("automorphism_count") == "len(perms)" and kv.get("orbits") == "orbits" and kv.get("canon_graph") == "G_can", kv,
-           "automorphism_count = number of minimal-label leaves; orbits and canonical graph are the computed ones")
+    kvn = {k.value: v for k, v in zip(d[0].keys, d[0].values) if isinstance(k, ast.Constant)}
     up = local_defs(cs.node)
-    tg = [dd for dd in up.get("perms", []) if dd.index is not None]
-    rep.ob("O18.5", "SHAPE", cs, bool(tg) and tg[0].index == (2,) and call_name(tg[0].value) == "_canon", "G_can, perm, perms, orbits, maps, early = self._canon(...)",
-           "the summary unpacks _canon's result in the order _canon returns it")
-    cn = rep.f(CN, K + "_canon")
-    rets = returns_of(cn.node)
-    rep.ob("O18.5", "SHAPE", cn, bool(rets) and [norm(e) for e in rets[-1].value.elts] == ["G_can", "perm", "perms", "orbits", "maps", "early"], rets[-1] if rets else "return",
-           "_canon returns (graph, perm, perms, orbits, maps, early)")
     cd = local_defs(cn.node)
-    rep.ob("O18.5", "SHAPE", cn, norm(origin(cd, ast.Name(id="orbits", ctx=ast.Load()))) == "self._orbits_from_perms(perms)", "orbits = self._orbits_from_perms(perms)",
-           "orbits are derived from all minimal-label leaves")
+    ret, elts = _ret_elts(cn)
+    sc = [c for c in walk_local(cn.node) if isinstance(c, ast.Call) and call_name(c) == "_search"]
+    rep.need("SHAPE", len(sc), 1, "_search call in _canon")
+    leaves = norm(sc[0].args[4]) if len(sc[0].args) > 4 else None  # the list every minimal-label leaf is appended to
+
+    def role(e):
+        """what a returned element of _canon is, by construction"""
+        if isinstance(e, ast.Name) and e.id == leaves:
+            return "leaves"
+        o = origin(cd, e)
+        if isinstance(o, ast.Call) and call_name(o) == "relabel_nodes":
+            return "graph"
+        if isinstance(o, ast.Call) and call_name(o) == "_orbits_from_perms" and o.args and norm(o.args[0]) == leaves:
+            return "orbits"
+        if isinstance(o, ast.Call) and call_name(o) == "_search":
+            return "early"
+        return norm(o)[:30]
+    roles = [role(e) for e in elts]
+
+    def slot_role(v):
+        if isinstance(v, ast.Name):
+            k = _slot_of(up, v.id, "_canon")
+            return roles[k] if k is not None and k < len(roles) else None
+        return None
+    ac = kvn.get("automorphism_count")
+    ok = ac is not None and isinstance(ac, ast.Call) and call_name(ac) == "len" and slot_role(ac.args[0]) == "leaves" \
+        and slot_role(kvn.get("orbits")) == "orbits" and slot_role(kvn.get("canon_graph")) == "graph"
+    rep.ob("O18.5", "SHAPE", cs, ok, {k: norm(v) for k, v in kvn.items()},
+           "automorphism_count = number of minimal-label leaves; orbits and canonical graph are the computed ones", {"_canon returns": roles})
+    rep.ob("O18.5", "SHAPE", cs, "leaves" in roles and "orbits" in roles and "graph" in roles, ret,
+           "_canon returns the canonical graph, all minimal-label leaves and the orbits derived from them", {"_canon returns": roles})
     mg = rep.f(CN, K + "_orbits_from_perms.<locals>.merge")
     for ok, msg, facts in check_merge(mg.node):
         rep.ob("O18.5", "SHAPE", mg, ok, msg, "merging two orbit slots keeps orbit_map exact: the union stays at the surviving slot and every member of the emptied slot is re-pointed to it",
                facts, node=mg.node)
     op = rep.f(CN, K + "_orbits_from_perms")
+    pp = op.params[0]
     calls = [c for c in walk_local(op.node) if isinstance(c, ast.Call) and isinstance(c.func, ast.Name) and c.func.id == "merge"]
-    okm = len(calls) == 1 and [norm(a_) for a_ in calls[0].args] == ["idx", "orbit_map[v]"]
-    lps_ = enclosing_loops(parent_map(op.node), calls[0], op.node) if calls else []
-    okm = okm and len(lps_) == 2 and norm(lps_[0].iter) == "enumerate(p)" and norm(lps_[1].iter) == "perms[1:]"
+    okm = False
+    if len(calls) == 1:
+        m = pmatch("merge($i, $om[$v])", calls[0])
+        lps_ = enclosing_loops(parent_map(op.node), calls[0], op.node)
+        if m and len(lps_) == 2:
+            m2 = pmatch("enumerate($p)", lps_[0].iter)
+            okm = m2 is not None and pmatch("($i, $v)", lps_[0].target, {"i": m["i"], "v": m["v"]}) is not None \
+                and norm(lps_[1].target) == m2["p"] and pmatch(f"{pp}[1:]", lps_[1].iter) is not None
+            # the first leaf seeds one singleton orbit per position
+            seed = pfind("$om[$v] = $i", op.node, {"om": m["om"]}, into_nested=False)
+            okseed = False
+            for st, b in seed:
+                l2 = enclosing_loops(parent_map(op.node), st, op.node)
+                if len(l2) == 1 and pmatch("($i, $v)", l2[0].target, {"i": b["i"], "v": b["v"]}) is not None:
+                    e = pmatch("enumerate($f)", l2[0].iter)
+                    okseed = e is not None and pmatch(f"{pp}[0]", origin(local_defs(op.node), ast.Name(id=e["f"], ctx=ast.Load()))) is not None \
+                        and bool(pfind("$o.append({$v})", l2[0], {"v": b["v"]}))
+            okm = okm and okseed
     rep.ob("O18.5", "SHAPE", op, okm, calls[0] if calls else "merge(idx, orbit_map[v])", "every position of every further minimal leaf is merged with the orbit of the node found there")
     # automorphism enumeration: full isomorphisms, every mapping counted and used
     sm = rep.f(AU, "CRNAutomorphism.summary")
     pm = parent_map(sm.node)
+    sdefs = local_defs(sm.node)
     loops = [l for l in walk_local(sm.node) if isinstance(l, ast.For) and isinstance(l.iter, ast.Call) and call_name(l.iter) in (M.ISO_METHODS | M.SUB_METHODS)]
     rep.need("R2", len(loops), 1, "enumeration loop in CRNAutomorphism.summary")
     lp = loops[0]
     rep.ob("O18.5", "R2", sm, call_name(lp.iter) == "isomorphisms_iter", lp.iter, "automorphisms are full isomorphisms of the view onto itself", node=lp)
-    inc = [n for n in lp.body if isinstance(n, ast.AugAssign) and norm(n.target) == "count" and isinstance(n.op, ast.Add) and is_const(n.value, 1)]
-    rep.ob("O18.5", "SHAPE", sm, len(inc) == 1, inc[0] if inc else "count += 1", "every enumerated automorphism is counted (unconditionally)", node=lp)
-    app = [c for c in walk_local(lp) if isinstance(c, ast.Call) and norm(c.func) == "used_mappings.append"]
-    rep.ob("O18.5", "SHAPE", sm, len(app) == 1 and not guards_of(pm, app[0], lp), app[0] if app else "used_mappings.append", "every enumerated automorphism feeds the orbit computation", node=lp)
+    sd = [n for n in walk_local(sm.node) if isinstance(n, ast.Dict)]
+    kv = {k.value: v for k, v in zip(sd[0].keys, sd[0].values) if isinstance(k, ast.Constant)} if sd else {}
+    cnt = kv.get("automorphism_count")
+    cname = cnt.id if isinstance(cnt, ast.Name) else None
+    inc = [n for n in lp.body if cname and (pmatch(f"{cname} += 1", n) is not None or pmatch(f"{cname} = {cname} + 1", n) is not None)]
+    others = [n for n in walk_local(sm.node) if cname and isinstance(n, (ast.Assign, ast.AugAssign)) and n not in inc and
+              any(norm(t) == cname for t in (n.targets if isinstance(n, ast.Assign) else [n.target])) and not (isinstance(n, ast.Assign) and is_const(n.value, 0))]
+    rep.ob("O18.5", "SHAPE", sm, len(inc) == 1 and not others, inc[0] if inc else "count += 1", "every enumerated automorphism is counted (unconditionally)", node=lp)
+    oc = [c for c in walk_local(sm.node) if isinstance(c, ast.Call) and call_name(c) == "_compute_orbits_from_mappings"]
+    used = norm(oc[0].args[1]) if oc and len(oc[0].args) > 1 else None
+    app = [c for c in walk_local(lp) if used and isinstance(c, ast.Call) and norm(c.func) == f"{used}.append"]
+    okapp = False
+    if len(app) == 1 and not guards_of(pm, app[0], lp):
+        a0 = origin(sdefs, app[0].args[0])
+        okapp = norm(a0) in (norm(lp.target), f"dict({norm(lp.target)})")
+    rep.ob("O18.5", "SHAPE", sm, okapp, app[0] if app else "used_mappings.append", "every enumerated automorphism feeds the orbit computation", node=lp)
     brk = [n for n in walk_local(lp) if isinstance(n, (ast.Break, ast.Continue))]
     okb = all(any("_should_stop" in norm(t) for t, s_ in guards_of(pm, b, lp)) for b in brk)
     rep.ob("O18.5", "SHAPE", sm, okb, [type(b).__name__ for b in brk], "enumeration stops only on the documented count/time bound")
-    sd = [n for n in walk_local(sm.node) if isinstance(n, ast.Dict)]
-    kv = {k.value: norm(v) for k, v in zip(sd[0].keys, sd[0].values) if isinstance(k, ast.Constant)} if sd else {}
-    rep.ob("O18.5", "SHAPE", sm, kv.get("automorphism_count") == "count" and kv.get("orbits") == "orbits" and kv.get("stopped_early") == "stopped", kv,
+    orb = kv.get("orbits")
+    okorb = isinstance(orb, ast.Name) and oc and any(d_.index == (0,) and d_.value is oc[0] for d_ in sdefs.get(orb.id, []))
+    st = kv.get("stopped_early")
+    okst = False
+    if isinstance(st, ast.Name):
+        raises = [n for n in walk_local(sm.node) if isinstance(n, ast.Assign) and norm(n.targets[0]) == st.id and is_const(n.value, True)]
+        okst = any(any(isinstance(x, ast.Break) for x in (pm.get(n).body if isinstance(pm.get(n), ast.If) else [])) for n in raises)
+    rep.ob("O18.5", "SHAPE", sm, cname is not None and bool(okorb) and okst, {k: norm(v) for k, v in kv.items() if k in ("automorphism_count", "orbits", "stopped_early")},
            "the summary reports the count, the orbits and whether enumeration was cut")
     co = rep.f(AU, "CRNAutomorphism._compute_orbits_from_mappings")
+    nodes_p, maps_p = co.params[1], co.params[2]
     un = [c for c in walk_local(co.node) if isinstance(c, ast.Call) and isinstance(c.func, ast.Name) and c.func.id == "union"]
-    ok = len(un) == 1 and [norm(a) for a in un[0].args] == ["src", "dst"] and bool(enclosing_loops(parent_map(co.node), un[0], co.node)) \
-        and norm(enclosing_loops(parent_map(co.node), un[0], co.node)[0].iter).replace(" ", "") == "m.items()"
+    ok = False
+    if len(un) == 1:
+        m = pmatch("union($s, $d)", un[0])
+        l2 = enclosing_loops(parent_map(co.node), un[0], co.node)
+        if m and len(l2) == 2:
+            it = pmatch("$m.items()", l2[0].iter)
+            ok = it is not None and (pmatch("($s, $d)", l2[0].target, m) is not None or pmatch("($d, $s)", l2[0].target, m) is not None) \
+                and norm(l2[1].target) == it["m"] and norm(l2[1].iter) == maps_p
     rep.ob("O18.5", "SHAPE", co, ok, un[0] if un else "union(src, dst)", "each node is merged with its image under every mapping (orbits = exchangeability classes)")
-    bk = [n for n in walk_local(co.node) if isinstance(n, ast.For) and norm(n.iter) == "nodes"]
+    bk = [n for n in walk_local(co.node) if isinstance(n, ast.For) and norm(n.iter) == nodes_p]
     rep.ob("O18.5", "SHAPE", co, bool(bk), bk[0].iter if bk else "for n in nodes", "every node of the view is assigned to an orbit")
 
 
